@@ -46,4 +46,41 @@ TEXTS = {
         "technique": "Lean 4 proof + differential correspondence against a reference ownership predicate",
     },
 }
+TEXTS.update({
+    "_engines": [
+        {"name": "tree", "path": "harness/conc/tree_test.go", "serves_properties": ["C05", "C06", "C07", "C08", "C10", "C11", "C16"],
+         "kind_free_text": "behavioural conformance under testing/synctest: real controller + subscription/clone/filter/monitor trees vs the Lean tree model (kdriver tree), stepwise and burst regimes, stalled consumers"},
+    ],
+    "C06": {
+        "text": "Lean theorems over the code-shaped filtered-subscription machine in an environment that is ANY well-formed parent delta stream, for every "
+                "interleaving (label sequence) of parent events, parent-ready, Refilter (equal / new, before or after readiness, immediate or deferred) and "
+                "consumption: the per-key cut invariant, convergence (queue drained => cache = last requested filter applied to the parent's content, at the "
+                "parent's versions), the remembered filter is the applied one, the own event stream replays (well-formed delta), conjunction of nested filters. "
+                "Tie: real trees under synctest, each ready filtered node compared with its filter applied to the observed parent cache at every quiescent point.",
+        "design_ref": "DESIGN.md §7 C06",
+        "note": "Trusted: Lean kernel; the FSub model (hand-written from subscription_filter.go) and the environment assumptions stated in FSubWorld.lean "
+                "(parent List() is an atomic snapshot = C15, events arrive in order without loss = C05/no overflow, filter equality sound = C17); "
+                "interleavings of the real goroutines are sampled, not enumerated.",
+        "technique": "Lean 4 proof (inductive invariant over all label sequences of an interleaving transition system) + behavioural conformance at quiescence under testing/synctest",
+    },
+    "C07": {
+        "text": "Lean theorems: at quiescence (ready, nothing in flight) Refilter with a new filter emits, per key, exactly one Delete for a cached object the "
+                "new filter rejects, exactly one Create for a parent object newly accepted, nothing otherwise, and the cache becomes the new view; an equal "
+                "filter emits and changes nothing (and equal filters accept the same objects); any Refilter sequence ends in the view of the last filter "
+                "(round trip). Tie: exhaustive family of contents x filter pairs on the real code, events compared with the membership changes.",
+        "design_ref": "DESIGN.md §7 C07",
+        "note": "Trusted as for C06; the exact-delta theorem rests on the per-key event account of doSync (Proofs/Cache.lean: doSync_events_key).",
+        "technique": "Lean 4 proof (per-key event characterisation of the sync fold) + exhaustive conformance over a filter family under testing/synctest",
+    },
+    "C08": {
+        "text": "Lean theorems (invariants of the filtered-subscription machine over all label sequences): readych is closed at most once; nothing is on Events() "
+                "and the cache is empty while not ready; the step that makes it ready leaves the cache exactly synced with the parent's content (all three paths, "
+                "including ready-on-unchanged-filter without a sync, justified by the 'unready deferred holds nothing and rejects everything' invariant); ready "
+                "implies parent readiness observed and, for deferred, a filter supplied; readiness is stable. Controller/plain-node readiness is carried by the "
+                "tree model. Tie: gated first lists with random pre-ready orders of attach/Refilter/events on the real code.",
+        "design_ref": "DESIGN.md §7 C08",
+        "note": "Trusted as for C06. 'No event before Ready' is checked on what Events() had delivered at each quiescent observation, not at arbitrary instants.",
+        "technique": "Lean 4 proof (inductive invariants) + behavioural conformance with gated readiness under testing/synctest",
+    },
+})
 NOT_BUILT = {}
